@@ -10,6 +10,7 @@ import Driver.Bus
 import Driver.Auth
 import Driver.Acc
 import Driver.Act
+import Driver.Helper
 /-
   Line-protocol driver over Dbus.Model (compiled; imports no proofs and no Mathlib).
 
@@ -69,6 +70,9 @@ def handle (st : Stats) (line : String) : Stats × Option String :=
   | "pc" :: rest =>
     let (p, ans) := pcCmd st.pc rest
     ({ st with pc := p, bad := if ans = "bad-op" then st.bad + 1 else st.bad }, some ans)
+  | "helper" :: rest =>
+    let ans := helperCmd rest
+    ({ st with bad := if ans = "bad-op" then st.bad + 1 else st.bad }, some ans)
   | "match" :: rest =>
     let ans := matchCmd rest
     ({ st with bad := if ans = "bad-op" then st.bad + 1 else st.bad }, some ans)
